@@ -1046,3 +1046,93 @@ mut('C14', 'job-user-from-json', APIBASE,
 eq(['C14'], 'form-admin-overridden-by-init-subclass', APIQ,
     "    endpoint_cls = DeleteQueues\n    title = 'Delete the queue'",
     "    endpoint_cls = DeleteQueues\n    admin = False\n    title = 'Delete the queue'")
+
+# ------------------------------------------------------------------- C15
+mut('C15', 'force-ignored', COMMANDS,
+    "    if lossy_reset and not force:\n        raise lossy_reset",
+    "    if lossy_reset and force:\n        raise lossy_reset")
+mut('C15', 'refusal-dropped', COMMANDS,
+    "    if lossy_reset and not force:\n        raise lossy_reset\n\n", "")
+mut('C15', 'destruction-before-refusal', COMMANDS,
+    "    if lossy_reset and not force:\n        raise lossy_reset\n\n    wprs = job.project_repo.get_pull_requests(\n        src_branch=[b.name for b in wbranches]\n    )\n    for branch in wbranches:\n        branch.remove(do_push=False)\n",
+    "    wprs = job.project_repo.get_pull_requests(\n        src_branch=[b.name for b in wbranches]\n    )\n    for branch in wbranches:\n        branch.remove(do_push=False)\n    if lossy_reset and not force:\n        raise lossy_reset\n\n")
+mut('C15', 'reset-forces', COMMANDS,
+    "    _reset(job, force=False)", "    _reset(job, force=True)")
+mut('C15', 'reset-default-force', COMMANDS,
+    "def _reset(job, force=False):", "def _reset(job, force=True):")
+mut('C15', 'declines-parent-too', COMMANDS,
+    "        src_branch=[b.name for b in wbranches]\n    )\n    for branch in wbranches:",
+    "        src_branch=[b.name for b in wbranches] + [job.pull_request.src_branch]\n    )\n    for branch in wbranches:")
+mut('C15', 'removes-all-w', INTEG,
+    "    for dst in job.git.cascade.dst_branches:\n        name = \"w/{}/{}\".format(dst.version, src)\n        branch = branch_factory(job.git.repo, name)\n        branch.src_branch, branch.dst_branch = src, dst\n        if branch.exists():\n            yield branch\n",
+    "    for dst in job.git.cascade.dst_branches:\n        for name in job.git.repo.remote_branches:\n            if not name.startswith('w/%s/' % dst.version):\n                continue\n            branch = branch_factory(job.git.repo, name)\n            branch.src_branch, branch.dst_branch = src, dst\n            if branch.exists():\n                yield branch\n")
+mut('C15', 'robot-filter-dropped', COMMANDS,
+    "            if rev.author == job.settings.robot:\n                continue\n\n", "")
+mut('C15', 'merge-commits-ignored', COMMANDS,
+    "            if len(rev.parents) == 1:\n                parent = rev.parents[0]",
+    "            if len(rev.parents) != 1:\n                continue\n            if len(rev.parents) == 1:\n                parent = rev.parents[0]")
+mut('C15', 'warning-only-last-branch', COMMANDS,
+    "    lossy_reset = None\n    for branch in wbranches:\n        src, dst = branch.src_branch, branch.dst_branch\n",
+    "    for branch in wbranches:\n        lossy_reset = None\n        src, dst = branch.src_branch, branch.dst_branch\n")
+mut('C15', 'reset-returns', COMMANDS,
+    "    if not wbranches:\n        raise ResetComplete(couldnt_decline=[],\n                            active_options=job.active_options)",
+    "    if not wbranches:\n        return")
+mut('C15', 'source-branch-removed', COMMANDS,
+    "    push(job.git.repo, prune=True)\n\n    # decline integration pull requests:",
+    "    job.git.src_branch.remove(force=True)\n    push(job.git.repo, prune=True)\n\n    # decline integration pull requests:")
+mut('C15', 'parent-in-wrong-set', COMMANDS,
+    "                if parent in feature or dst.includes_commit(parent):",
+    "                if parent in feature or branch.includes_commit(parent):")
+mut('C15', 'reset-bound-to-force', COMMANDS,
+    "@Reactor.command\ndef reset(job, *args):",
+    "@Reactor.command('soft_reset')\ndef reset(job, *args):")
+
+# ------------------------------------------------------------------- C19
+mut('C19', 'branch-always-created', INTEG,
+    "        if not branch.exists():\n            branch.create(dst, do_push=False)\n        yield branch",
+    "        branch.create(dst, do_push=False)\n        yield branch")
+mut('C19', 'pr-always-created', BRANCHES,
+    "        created = False\n        if not pr:\n            description",
+    "        created = False\n        if not pr or parent_pr.id:\n            description")
+mut('C19', 'pr-match-ignores-dst', BRANCHES,
+    "            if self.dst_branch and \\\n                    pr.dst_branch != \\\n                    self.dst_branch.name:\n                continue\n            return pr",
+    "            return pr")
+mut('C19', 'pr-match-ignores-src', BRANCHES,
+    "            if pr.src_branch != self.name:\n                continue\n",
+    "")
+mut('C19', 'open-prs-any-status', INTEG,
+    "        ) if pr.status == 'OPEN']", "        )]")
+mut('C19', 'robot-redirect-removed', GWF,
+    "    if job.pull_request.author == job.settings.robot:\n        return handle_parent_pull_request(job, job.pull_request)\n    try:",
+    "    try:")
+mut('C19', 'decline-without-src-test', GWF,
+    "            if (pr.status == 'OPEN' and\n                    pr.src_branch == name and\n                    pr.dst_branch == dst_branch.name):",
+    "            if (pr.status == 'OPEN' and\n                    pr.dst_branch == dst_branch.name):")
+mut('C19', 'builder-differs', GWF,
+    "    wbranch_names = ['w/{}/{}'.format(b.version, src_branch)\n                     for b in dst_branches]",
+    "    wbranch_names = ['w/{}/{}'.format(src_branch, b.version)\n                     for b in dst_branches]")
+mut('C19', 'ghost-creates-pr', BRANCHES,
+    "    def get_or_create_pull_request(self, parent_pr, open_prs, bitbucket_repo):\n        return self.get_pull_request_from_list(open_prs), False\n",
+    "")
+mut('C19', 'parent-id-last-number', GWF,
+    "        parent_id, *_ = ids", "        *_, parent_id = ids")
+mut('C19', 'commit-newest-pr', GWF,
+    "    pr = min(prs, key=lambda pr: pr.id)", "    pr = max(prs, key=lambda pr: pr.id)")
+mut('C19', 'queue-redirect-always', GWF,
+    "        if any(isinstance(b, QueueBranch) for b in candidates):\n            return queueing.handle_merge_queues",
+    "        if candidates:\n            return queueing.handle_merge_queues")
+mut('C19', 'declined-continues', GWF,
+    "    if changed:\n        push(job.git.repo, prune=True)\n        raise messages.PullRequestDeclined()\n    else:\n        raise messages.NothingToDo()",
+    "    if changed:\n        push(job.git.repo, prune=True)\n        raise messages.PullRequestDeclined()")
+mut('C19', 'declined-cleanup-always', GWF,
+    "    if job.pull_request.status == 'DECLINED':\n        handle_declined_pull_request(job)",
+    "    if job.pull_request.status != 'OPEN' or job.settings.wait:\n        handle_declined_pull_request(job)")
+mut('C19', 'merge-removes-first', INTEG,
+    "    for wbranch in children:\n        try:\n            wbranch.remove()",
+    "    for wbranch in wbranches:\n        try:\n            wbranch.remove()")
+mut('C19', 'child-pr-wrong-target', BRANCHES,
+    "                dst_branch=self.dst_branch.name,\n                close_source_branch=True,",
+    "                dst_branch=parent_pr.dst_branch,\n                close_source_branch=True,")
+mut('C19', 'title-without-parent', BRANCHES,
+    "        title = 'INTEGRATION [PR#%s > %s] %s' % (\n            parent_pr.id, self.dst_branch.name, parent_pr.title\n        )",
+    "        title = 'INTEGRATION [PR#%s > %s] %s' % (\n            self.name, self.dst_branch.name, parent_pr.title\n        )")
